@@ -641,6 +641,8 @@ def compare_step(label, before, after, lossy, fails, tags, where, st=None):
                 if isinstance(ib, int) and ia != ib:
                     if n.get("action") is o["action"]:
                         how = "kept-old"                     # the logged action was not re-represented although the actions were
+                    elif isinstance(n.get("action"), list) and isinstance(o["action"], (tuple, str)):
+                        how = "listified"                    # a plain tuple / string logged action was sent through list()
                     elif type(n.get("action")).__name__ == "SparseDense" and not n["action"]._values:
                         how = "empty-sparsedense"            # SparseDense({},n) cannot be iterated and is unequal to itself
                     else:
@@ -772,6 +774,9 @@ WITNESSES = {
                           "chain": [{"f": "noise", "c": None, "a": {"kind": "fn", "mul": 1, "add": 10}, "seed": 1}]},
     "fixEmptySparseDense": {"stream": [{"context": None, "action": {"d": []}, "reward": [1, 2], "probability": [1, 4], "actions": [{"d": []}, {"d": [["a", {"n": [1, 1]}]]}]}],
                             "chain": [{"f": "densify", "n": 2, "m": "lookup", "c": False, "a": True}]},
+    "fixHardenMixed": {"stream": [{"context": None, "actions": [{"d": [["a", {"n": [1, 1]}]]}, {"t": [{"n": [1, 1]}, {"n": [2, 1]}]}],
+                                   "rewards": {"k": "binary", "argmax": {"t": [{"n": [1, 1]}, {"n": [2, 1]}]}, "value": [1, 1]}}],
+                       "chain": [{"f": "densify", "n": 4, "m": "lookup", "c": False, "a": True}, {"f": "finalize"}]},
     "fixFlattenLogged": {"stream": [{"context": None, "action": {"t": [{"n": [3, 1]}, {"t": [{"n": [4, 1]}]}]}, "reward": [1, 2], "probability": [1, 4],
                                      "actions": [{"t": [{"n": [1, 1]}, {"t": [{"n": [2, 1]}]}]}, {"t": [{"n": [3, 1]}, {"t": [{"n": [4, 1]}]}]}]}],
                          "chain": [{"f": "flatten"}]},
